@@ -605,20 +605,31 @@ class IH5Group(IH5InnerNode):
             if isinstance(prev_val, (IH5Group, IH5Dataset)):
                 raise ValueError("Path exists, in order to replace - delete first!")
 
-        if path in self._files[-1] and _node_is_del_mark(
-            self._get_child_raw(path, self._last_idx)
-        ):
-            # remove deletion marker in latest patch, if set
-            del self._files[-1][path]
-        elif path not in self._files[-1]:
-            # create path and overwrite-group in latest patch
-            self._create_virtual(path)
-            assert path in self._files[-1]
-            del self._files[-1][path]
-
-        self._files[-1].create_dataset(  # actually create it, finally
-            path, shape=shape, dtype=dtype, data=data, **kwargs
+        # actually create the dataset first, but under a temporary name (which cannot
+        # be a user key): h5py may still reject the passed arguments, and in
+        # that case nothing in the record must have been changed.
+        tmp_path = f"/{SUBST_KEY}tmp"
+        if tmp_path in self._files[-1]:  # left over by an interrupted call
+            del self._files[-1][tmp_path]
+        self._files[-1].create_dataset(
+            tmp_path, shape=shape, dtype=dtype, data=data, **kwargs
         )
+        try:
+            if path in self._files[-1] and _node_is_del_mark(
+                self._get_child_raw(path, self._last_idx)
+            ):
+                # remove deletion marker in latest patch, if set
+                del self._files[-1][path]
+            elif path not in self._files[-1]:
+                # create path and overwrite-group in latest patch
+                self._create_virtual(path)
+                assert path in self._files[-1]
+                del self._files[-1][path]
+            # now move the new dataset to its place
+            self._files[-1].move(tmp_path, path)
+        except BaseException:
+            del self._files[-1][tmp_path]
+            raise
         return IH5Dataset(self._record, path, self._last_idx)
 
     def require_group(self, name: str) -> IH5Group:
